@@ -28,7 +28,7 @@ def registry():
             obj = getattr(mod, name)
             if isinstance(obj, type):
                 reg[name] = obj
-    for name in ("TableCost", "TableSaving", "TableChangeScore", "TableLocalAnomalyScore", "L1Cost", "TrendPenalisedL2Cost",
+    for name in ("TableCost", "TableSaving", "TableChangeScore", "TableLocalAnomalyScore", "L1Cost", "TrendPenalisedL2Cost", "MemoisingAbsCost",
                  "FixedChangeDetector", "FunctionChangeScore", "FunctionLocalAnomalyScore"):
         reg[name] = getattr(U, name)
     return reg
@@ -82,7 +82,7 @@ def scorer_min_size(spec, p):
     if spec is None:
         return 1
     cls = spec["cls"]
-    if cls in ("L2Cost", "CUSUM", "L2Saving", "L1Cost", "TrendPenalisedL2Cost"):
+    if cls in ("L2Cost", "CUSUM", "L2Saving", "L1Cost", "TrendPenalisedL2Cost", "MemoisingAbsCost"):
         return 1
     if cls == "GaussianVarCost":
         return 2
